@@ -63,6 +63,16 @@ def r1_scope_pairs(chk: Check) -> None:
                 chk.ok("C08.R1", fn, construct, "the popped scope is restored on all exits", fn.loc(pops[0]))
             else:
                 chk.violation("C08.R1", fn, construct, "an exit leaves the resolver one scope short: references of the operation being processed resolve against the root document", fn.loc(pops[0]), g.describe_path(w, fn.module.relpath))
+    # a `with <paired context manager>(...)` use is a pair by construction (the manager itself is one of the sites above)
+    managers = {fn.name for fn in P.all_functions()
+                if "contextmanager" in " ".join(fn.decorator_names()) and any(last_attr(c) == "push_scope" for c in body_calls(fn))}
+    for fn in P.all_functions():
+        for n in walk_body(fn.node):
+            if isinstance(n, (ast.With, ast.AsyncWith)):
+                for item in n.items:
+                    if isinstance(item.context_expr, ast.Call) and last_attr(item.context_expr) in managers:
+                        n_sites += 1
+                        chk.ok("C08.R1", fn, f"with {unparse(item.context_expr, 60)}", "paired by the context manager (checked above)", fn.loc(n))
     if n_sites < 6:
         chk.undecided("C08.R1", "<discovery>", f"sites={n_sites}", "fewer push/pop sites than confirmed by hand (6)")
 
